@@ -308,6 +308,8 @@ func (r *vc09Run) acked(k int) int {
 func (r *vc09Run) window(j int) (lo, hi int) {
 	if j > 0 {
 		lo = r.tr.AckAfter[j-1]
+	} else if r.tr.SchemaAt > 0 {
+		lo = r.tr.SchemaAt
 	}
 	hi = len(r.tr.Ops)
 	if j < len(r.tr.AckAfter) {
@@ -316,15 +318,19 @@ func (r *vc09Run) window(j int) (lo, hi int) {
 	return
 }
 
+// vc09Torn counts the op-log appends of the in-flight write to one fragment
+// that completed before / after the crash point.
+type vc09Torn struct{ Before, After int }
+
 // torn lists the fragments whose op log received some but not all of the
 // appends of the in-flight write j when k operations completed.
-func (r *vc09Run) torn(j, k int) map[vc09FragKey]bool {
-	out := map[vc09FragKey]bool{}
+func (r *vc09Run) torn(j, k int) map[vc09FragKey]vc09Torn {
+	out := map[vc09FragKey]vc09Torn{}
 	if j >= len(r.h.Writes) {
 		return out
 	}
 	lo, hi := r.window(j)
-	before, after := map[vc09FragKey]int{}, map[vc09FragKey]int{}
+	cnt := map[vc09FragKey]vc09Torn{}
 	for i := lo; i < hi; i++ {
 		o := &r.tr.Ops[i]
 		if o.Kind != "write" || !o.Append {
@@ -334,18 +340,135 @@ func (r *vc09Run) torn(j, k int) map[vc09FragKey]bool {
 		if !ok {
 			continue
 		}
+		c := cnt[key]
 		if i < k {
-			before[key]++
+			c.Before++
 		} else {
-			after[key]++
+			c.After++
 		}
+		cnt[key] = c
 	}
-	for key := range before {
-		if after[key] > 0 {
-			out[key] = true
+	for key, c := range cnt {
+		if c.Before > 0 && c.After > 0 {
+			out[key] = c
 		}
 	}
 	return out
+}
+
+// vc09TornBits returns the one fragment content open finding DC3 excuses for
+// a set-like fragment at this crash point, or nil. The unchanged code tears
+// exactly like this:
+//   - Set() on a mutex/bool field that moves a column: the old row is cleared
+//     with the first append, the new row set with the second: in between the
+//     column is EMPTY (= the bits both states share);
+//   - Import on a mutex/bool field: one AddN append with the new bits, then one
+//     RemoveN append with the replaced ones: in between the columns hold BOTH
+//     rows (= the union of both states).
+func (r *vc09Run) tornBits(w *vc09Write, key vc09FragKey, a, b map[uint64]bool) map[uint64]bool {
+	if (w.Field != "m" && w.Field != "b") || key.Field != w.Field || key.View != viewStandard {
+		return nil
+	}
+	out := map[uint64]bool{}
+	switch w.Kind {
+	case "set":
+		for p := range a {
+			if b[p] {
+				out[p] = true
+			}
+		}
+	case "import":
+		for p := range a {
+			out[p] = true
+		}
+		for p := range b {
+			out[p] = true
+		}
+	default:
+		return nil
+	}
+	return out
+}
+
+// vc09TornVals is the same for the int fragment: the column -> value map the
+// unchanged code leaves when tn.Before of its appends are on disk.
+//   - Set(col, v=x) appends one op per value bit (bit 0 upwards, depth =
+//     appends-2), then the existence bit, then the sign bit: after m appends the
+//     column has the low m bits of the new magnitude, the other bits, the
+//     existence and the sign of the old value (existence of the new one once
+//     all bit ops are out);
+//   - ImportValue (small path) appends all bits to set (AddN), then all bits to
+//     clear (RemoveN): in between every imported column has old|new magnitude
+//     bits, exists, and is negative if the old or the new value is.
+func (r *vc09Run) tornVals(w *vc09Write, key vc09FragKey, tn vc09Torn, av map[uint64]int64) map[uint64]int64 {
+	out := map[uint64]int64{}
+	for c, v := range av {
+		out[c] = v
+	}
+	mag := func(v int64) uint64 {
+		if v < 0 {
+			return uint64(-v)
+		}
+		return uint64(v)
+	}
+	switch w.Kind {
+	case "setval":
+		col := r.ids.col(w, -1)
+		if col/ShardWidth != key.Shard {
+			return nil
+		}
+		depth := tn.Before + tn.After - 2
+		if depth < 0 {
+			return nil
+		}
+		old, oldExists := av[col]
+		m := tn.Before
+		var v uint64
+		for i := 0; i < 64; i++ {
+			src := mag(old)
+			if i < m && i < depth {
+				src = mag(w.Val)
+			}
+			v |= src & (1 << uint(i))
+		}
+		if !oldExists && m <= depth {
+			delete(out, col) // the existence bit is not out yet
+			return out
+		}
+		if oldExists && old < 0 {
+			out[col] = -int64(v)
+		} else {
+			out[col] = int64(v)
+		}
+		return out
+	case "importvalue":
+		if tn.Before != 1 || tn.After != 1 {
+			return nil
+		}
+		n := len(w.Cols) + len(w.ColKeys)
+		seen := map[uint64]bool{}
+		for i := n - 1; i >= 0; i-- { // the last entry of a column wins
+			col := r.ids.col(w, i)
+			if col/ShardWidth != key.Shard || seen[col] {
+				continue
+			}
+			seen[col] = true
+			old, oldExists := av[col]
+			v := mag(w.Vals[i])
+			neg := w.Vals[i] < 0
+			if oldExists {
+				v |= mag(old)
+				neg = neg || old < 0
+			}
+			if neg {
+				out[col] = -int64(v)
+			} else {
+				out[col] = int64(v)
+			}
+		}
+		return out
+	}
+	return nil
 }
 
 // vc09CompareFragments checks every fragment against models[j] / models[j+1].
@@ -395,24 +518,14 @@ func (r *vc09Run) compareFragments(rec *vc09Recovered, j, k int) *vc09Violation 
 					continue
 				}
 			}
-			if b != nil && torn[key] && vkit.Open("DC3") {
-				// tolerated signature: only columns the in-flight write changes may differ
-				ok := true
-				for c := range keysUnion(gv, av, bv) {
-					x, xok := av[c]
-					y, yok := bv[c]
-					if xok == yok && x == y { // untouched column
-						if g, gok := gv[c]; gok != xok || g != x {
-							ok = false
-						}
-					}
-				}
-				if ok {
+			if tn, isTorn := torn[key]; b != nil && isTorn && vkit.Open("DC3") {
+				// tolerated signature: exactly the value map the unchanged code leaves at this append
+				if want := r.tornVals(&r.h.Writes[j], key, tn, av); want != nil && vc09EqVals(gv, want) {
 					vkit.Excluded("DC3")
 					continue
 				}
 			}
-			return &vc09Violation{"int-fragment", fmt.Sprintf("fragment %s holds values %v; acknowledged state has %v, state after the write in flight %v (torn=%v)", key, gv, av, bv, torn[key])}
+			return &vc09Violation{"int-fragment", fmt.Sprintf("fragment %s holds values %v; acknowledged state has %v, state after the write in flight %v (appends of the write in flight to this fragment before/after the crash: %+v)", key, gv, av, bv, torn[key])}
 		}
 		if vc09EqBits(got, a.Bits[key]) {
 			continue
@@ -420,28 +533,8 @@ func (r *vc09Run) compareFragments(rec *vc09Recovered, j, k int) *vc09Violation 
 		if b != nil && vc09EqBits(got, b.Bits[key]) {
 			continue
 		}
-		if b != nil && torn[key] && vkit.Open("DC3") {
-			ok := true
-			gm := map[uint64]bool{}
-			for _, p := range got {
-				gm[p] = true
-			}
-			all := map[uint64]bool{}
-			for p := range gm {
-				all[p] = true
-			}
-			for p := range a.Bits[key] {
-				all[p] = true
-			}
-			for p := range b.Bits[key] {
-				all[p] = true
-			}
-			for p := range all {
-				if a.Bits[key][p] == b.Bits[key][p] && gm[p] != a.Bits[key][p] {
-					ok = false
-				}
-			}
-			if ok {
+		if _, isTorn := torn[key]; b != nil && isTorn && vkit.Open("DC3") {
+			if want := r.tornBits(&r.h.Writes[j], key, a.Bits[key], b.Bits[key]); want != nil && vc09EqBits(got, want) {
 				vkit.Excluded("DC3")
 				continue
 			}
@@ -452,20 +545,10 @@ func (r *vc09Run) compareFragments(rec *vc09Recovered, j, k int) *vc09Violation 
 		} else {
 			bs = "(no write in flight)"
 		}
-		return &vc09Violation{"fragment", fmt.Sprintf("fragment %s holds %s; acknowledged state has %s, state after the write in flight %s (torn=%v)",
+		return &vc09Violation{"fragment", fmt.Sprintf("fragment %s holds %s; acknowledged state has %s, state after the write in flight %s (appends of the write in flight to this fragment before/after the crash: %+v)",
 			key, vc09FmtPos(got), vc09FmtPos(vc09SortedSet(a.Bits[key])), bs, torn[key])}
 	}
 	return nil
-}
-
-func keysUnion(ms ...map[uint64]int64) map[uint64]bool {
-	out := map[uint64]bool{}
-	for _, m := range ms {
-		for k := range m {
-			out[k] = true
-		}
-	}
-	return out
 }
 
 // vc09CheckReads compares reads through the API with the recovered fragments.
@@ -707,13 +790,52 @@ func (r *vc09Run) checkCrashPoint(fs *vc09FS, k int, work string, probe bool) *v
 		}
 		tf.mu.RUnlock()
 	}
+	// "Files left by interrupted snapshots never affect the recovered state":
+	// every fragment with a leftover .snapshotting file is emptied (so that its
+	// next snapshot is shorter than the leftover), snapshotted and written to
+	// once more before the clean shutdown.
+	shrunk := map[vc09FragKey]bool{}
+	var leftovers []string
+	for p := range fs.files {
+		if strings.HasSuffix(p, snapshotExt) {
+			leftovers = append(leftovers, p)
+		}
+	}
+	sort.Strings(leftovers)
+	for _, p := range leftovers {
+		key, ok := vc09FragKeyOfPath(strings.TrimSuffix(p, snapshotExt))
+		if !ok {
+			continue
+		}
+		f := n.Server.holder.fragment(vc09Index, key.Field, key.View, key.Shard)
+		if f == nil {
+			continue
+		}
+		f.mu.Lock()
+		pos := f.storage.Slice()
+		f.mu.Unlock()
+		// bit by bit through the op log, so that the snapshot below is the first
+		// one after the restart (a second one would start from a fresh temp file)
+		for _, p := range pos {
+			if _, err := f.clearBit(p/ShardWidth, key.Shard*ShardWidth+p%ShardWidth); err != nil {
+				return &vc09Violation{"probe", fmt.Sprintf("clearBit on %s after the crash recovery fails: %v", key, err)}
+			}
+		}
+		if err := f.Snapshot(); err != nil {
+			return &vc09Violation{"probe", fmt.Sprintf("snapshot of %s (which has a leftover %s file) after the crash recovery fails: %v", key, snapshotExt, err)}
+		}
+		if _, err := f.setBit(0, key.Shard*ShardWidth+9); err != nil {
+			return &vc09Violation{"probe", fmt.Sprintf("setBit on %s after the crash recovery fails: %v", key, err)}
+		}
+		shrunk[key] = true
+	}
 	closed = true
 	if err := n.Close(); err != nil {
 		return &vc09Violation{"probe", fmt.Sprintf("clean shutdown after the crash recovery fails: %v", err)}
 	}
 	n2, err := vgcOpenNode(dst)
 	if err != nil {
-		return &vc09Violation{"restart-blocked", fmt.Sprintf("second restart (after one more write and a clean shutdown) fails: %v", err)}
+		return &vc09Violation{"restart-blocked", fmt.Sprintf("second restart (after one more write, emptying + snapshotting the %d fragments with a leftover %s file, and a clean shutdown) fails: %v", len(shrunk), snapshotExt, err)}
 	}
 	defer n2.Close()
 	rec2 := vc09ReadNode(n2)
@@ -737,6 +859,9 @@ func (r *vc09Run) checkCrashPoint(fs *vc09FS, k int, work string, probe bool) *v
 	if r.h.Schema.TrackExistence {
 		add(existenceFieldName, 0, probeCol)
 	}
+	for key := range shrunk {
+		wantBits[key] = map[uint64]bool{9: true}
+	}
 	for key := range rec2.Bits {
 		if wantBits[key] == nil {
 			wantBits[key] = map[uint64]bool{}
@@ -744,7 +869,11 @@ func (r *vc09Run) checkCrashPoint(fs *vc09FS, k int, work string, probe bool) *v
 	}
 	for key, want := range wantBits {
 		if !vc09EqBits(rec2.Bits[key], want) {
-			return &vc09Violation{"probe", fmt.Sprintf("after one more write (%s) and a clean restart fragment %s holds %s, want %s", q, key, vc09FmtPos(rec2.Bits[key]), vc09FmtPos(vc09SortedSet(want)))}
+			what := ""
+			if shrunk[key] {
+				what = fmt.Sprintf(" (this fragment had a leftover %s file: it was emptied, snapshotted and bit r0:c9 was set)", snapshotExt)
+			}
+			return &vc09Violation{"probe", fmt.Sprintf("after one more write (%s) and a clean restart fragment %s holds %s, want %s%s", q, key, vc09FmtPos(rec2.Bits[key]), vc09FmtPos(vc09SortedSet(want)), what)}
 		}
 	}
 	if v := r.checkKeys(n2, j, extra); v != nil {
@@ -792,7 +921,10 @@ func vc09CheckHistory(h *vc09History, work string, maxPoints int, pick func(n in
 	}
 	dataDir := filepath.Join(work, "data")
 	fs := vc09NewFS(dataDir)
-	start := tr.AckAfter[0]
+	start := tr.SchemaAt
+	if start < 0 {
+		return nil, 0, nil, vc09Inconcl("child did not report SCHEMA")
+	}
 	// first pass: which k are crash points (state changed, after the set-up write)?
 	var points []int
 	{
